@@ -362,6 +362,48 @@ def run_impl_all(prop, cases, jobs=12, chunk=100):
     return out
 
 
+# ------------------------------------------------------------------ source drift
+
+def source_fingerprints(repo):
+    """sha1 of the normalised AST (no comments, no docstrings, no formatting) of every
+    fcapy/**/*.py, per top-level function / method, so that drift can be named."""
+    import ast
+    out = {}
+    for f in sorted(glob.glob(os.path.join(repo, 'fcapy', '**', '*.py'), recursive=True)):
+        rel = os.path.relpath(f, repo)
+        try:
+            tree = ast.parse(open(f).read())
+        except Exception as e:  # a file that does not parse is certainly a drift
+            out[rel] = 'unparsable: %s' % type(e).__name__
+            continue
+        for node in ast.walk(tree):
+            if isinstance(node, (ast.FunctionDef, ast.AsyncFunctionDef, ast.ClassDef, ast.Module)):
+                b = node.body
+                if b and isinstance(b[0], ast.Expr) and isinstance(getattr(b[0], 'value', None), ast.Constant) \
+                        and isinstance(b[0].value.value, str):
+                    node.body = b[1:] or [ast.Pass()]
+        def visit(node, prefix):
+            for ch in getattr(node, 'body', []):
+                if isinstance(ch, (ast.FunctionDef, ast.AsyncFunctionDef)):
+                    out['%s:%s%s' % (rel, prefix, ch.name)] = hashlib.sha1(ast.dump(ch).encode()).hexdigest()[:16]
+                elif isinstance(ch, ast.ClassDef):
+                    visit(ch, prefix + ch.name + '.')
+        visit(tree, '')
+        out[rel] = hashlib.sha1(ast.dump(tree).encode()).hexdigest()[:16]
+    return out
+
+
+def source_drift():
+    """Functions of /repo's working tree whose fingerprint differs from the committed baseline."""
+    base_p = os.path.join(VERIF, 'harness', 'source_baseline.json')
+    if not os.path.exists(base_p):
+        return None
+    base = json.load(open(base_p))
+    cur = source_fingerprints(REPO)
+    changed = sorted(k for k in set(base) | set(cur) if base.get(k) != cur.get(k))
+    return changed
+
+
 # ------------------------------------------------------------------ known findings
 
 def load_known(pid):
@@ -522,6 +564,21 @@ def run_property(prop, tier='quick', seed=0, replay=None):
     cases = corpus + gen
     impl_t0 = time.time()
     outs, terms, codes, errors = evaluate(prop, cases)
+    # source drift: when the anchored code differs from the fingerprinted baseline and nothing has
+    # been found yet, the quick tier spends its remaining budget on further batches (other seeds)
+    drift = source_drift()
+    extra_batches = 0
+    budget = float(os.environ.get('VERIF_DRIFT_BUDGET_S', '75'))
+    while (drift and tier == 'quick' and not errors and all(c % 10 == 0 or c % 10 == 2 and c // 10 > 0 for c in codes)
+           and time.time() - t0 < budget * 0.6 and extra_batches < 6):
+        extra_batches += 1
+        more = list(prop.generate(random.Random(seed * 1000003 + 7919 * extra_batches), tier))
+        o2, t2, c2, e2 = evaluate(prop, more, tag='drift%d' % extra_batches)
+        cases += more
+        outs += o2
+        terms += t2
+        codes += c2
+        errors += e2
     corr_wall = time.time() - impl_t0
 
     known = load_known(pid)
@@ -666,6 +723,8 @@ def run_property(prop, tier='quick', seed=0, replay=None):
             'findings_not_reproduced': not_reproduced,
             'correspondence_wall_s': round(corr_wall, 2),
             'phases_s': dict(PHASES),
+            'source_drift': drift if drift is not None else 'no baseline',
+            'drift_extra_batches': extra_batches,
             'extra': (prop.extra_evidence(cases, outs) if hasattr(prop, 'extra_evidence') else {}),
             'notes': notes,
         },
